@@ -45,10 +45,10 @@ func (f *Frame) enterLoop(li *loopInfo, b *ssa.BasicBlock, preds []*ssa.BasicBlo
 			// ghost variables start at their initial value (the name inside Init is an arbitrary value)
 			ctx = ctx.with(nil)
 			for _, g := range gs {
-				_, srt := ctx.resolveType(g.Sort)
-				ctx.binds[g.Name] = Val{S: srt, E: vc.fresh(f.prefix+"ghost0 "+g.Name, srt)}
+				gt, srt := ctx.resolveType(g.Sort)
+				ctx.binds[g.Name] = Val{S: srt, E: vc.fresh(f.prefix+"ghost0 "+g.Name, srt), T: gt}
 				iv := ctx.eval(g.Init)
-				ctx.binds[g.Name] = Val{S: srt, E: vc.define(f.prefix+"ghostinit "+g.Name, srt, iv.E)}
+				ctx.binds[g.Name] = Val{S: srt, E: vc.define(f.prefix+"ghostinit "+g.Name, srt, iv.E), T: gt}
 			}
 		}
 		for k, inv := range invs {
@@ -84,8 +84,12 @@ func (f *Frame) enterLoop(li *loopInfo, b *ssa.BasicBlock, preds []*ssa.BasicBlo
 	}
 	// ghost variables: an arbitrary value constrained by the invariants, visible from here on
 	for _, g := range f.loopGhosts(li.n) {
-		_, srt := f.specCtx(heap, nil).resolveType(g.Sort)
-		f.lets[g.Name] = Val{S: srt, E: vc.fresh(f.prefix+"ghost "+g.Name, srt)}
+		gt, srt := f.specCtx(heap, nil).resolveType(g.Sort)
+		f.lets[g.Name] = Val{S: srt, E: vc.fresh(f.prefix+"ghost "+g.Name, srt), T: gt}
+		if f.ghostHdr == nil {
+			f.ghostHdr = map[string]*ssa.BasicBlock{}
+		}
+		f.ghostHdr[g.Name] = b
 	}
 	// 3. assume invariants
 	li.hdrHeap = heap.clone()
@@ -159,7 +163,11 @@ func (f *Frame) backEdge(li *loopInfo, latch *ssa.BasicBlock) {
 		nb := map[string]Val{}
 		for _, g := range gs {
 			nv := ctx.eval(g.Next)
-			nb[g.Name] = Val{S: nv.S, E: vc.define(f.prefix+"ghostnext "+g.Name, nv.S, nv.E), T: nv.T}
+			gt, _ := ctx.resolveType(g.Sort)
+			if gt == nil {
+				gt = nv.T
+			}
+			nb[g.Name] = Val{S: nv.S, E: vc.define(f.prefix+"ghostnext "+g.Name, nv.S, nv.E), T: gt}
 		}
 		ctx = ctx.with(nb)
 	}
